@@ -5,11 +5,29 @@ use std::fmt::{Display, Formatter, Result as FmtResult};
 /// A full Java StackTrace as printed by [`Throwable.printStackTrace()`].
 ///
 /// [`Throwable.printStackTrace()`]: https://docs.oracle.com/en/java/javase/14/docs/api/java.base/java/lang/Throwable.html#printStackTrace()
-#[derive(Clone, Debug, PartialEq)]
+#[derive(Debug, PartialEq)]
 pub struct StackTrace<'s> {
     pub(crate) exception: Option<Throwable<'s>>,
     pub(crate) frames: Vec<StackFrame<'s>>,
     pub(crate) cause: Option<Box<StackTrace<'s>>>,
+}
+
+// `Clone` walks the cause chain in a loop: the derived version recurses once per cause and
+// overflows the stack on (untrusted) traces with very deep chains.
+impl Clone for StackTrace<'_> {
+    fn clone(&self) -> Self {
+        let mut levels = Vec::new();
+        let mut current = Some(self);
+        while let Some(trace) = current {
+            levels.push(StackTrace {
+                exception: trace.exception.clone(),
+                frames: trace.frames.clone(),
+                cause: None,
+            });
+            current = trace.cause.as_deref();
+        }
+        StackTrace::from_levels(levels)
+    }
 }
 
 impl<'s> StackTrace<'s> {
@@ -76,6 +94,19 @@ impl<'s> StackTrace<'s> {
         parse_stacktrace(stacktrace)
     }
 
+    /// Links a list of cause-less traces (outermost first) into one cause chain.
+    pub(crate) fn from_levels(mut levels: Vec<StackTrace<'s>>) -> Self {
+        let mut chain: Option<Box<StackTrace<'s>>> = None;
+        while let Some(mut level) = levels.pop() {
+            level.cause = chain.take();
+            chain = Some(Box::new(level));
+        }
+        match chain {
+            Some(outermost) => *outermost,
+            None => StackTrace::new(None, vec![]),
+        }
+    }
+
     /// The exception at the top of the StackTrace, if present.
     pub fn exception(&self) -> Option<&Throwable<'_>> {
         self.exception.as_ref()
@@ -94,16 +125,21 @@ impl<'s> StackTrace<'s> {
 
 impl Display for StackTrace<'_> {
     fn fmt(&self, f: &mut Formatter<'_>) -> FmtResult {
-        if let Some(exception) = &self.exception {
-            writeln!(f, "{}", exception)?;
-        }
+        // iterates over the cause chain instead of recursing into it
+        let mut current = Some(self);
+        while let Some(trace) = current {
+            if let Some(exception) = &trace.exception {
+                writeln!(f, "{}", exception)?;
+            }
 
-        for frame in &self.frames {
-            writeln!(f, "    {}", frame)?;
-        }
+            for frame in &trace.frames {
+                writeln!(f, "    {}", frame)?;
+            }
 
-        if let Some(cause) = &self.cause {
-            write!(f, "Caused by: {}", cause)?;
+            current = trace.cause.as_deref();
+            if current.is_some() {
+                write!(f, "Caused by: ")?;
+            }
         }
 
         Ok(())
